@@ -111,7 +111,8 @@ class Matrix(Sub):
                 token = {} if ident is None else {"pubkey": E.PKS[0], "roles": set(ident)}
                 before = await rig.dump()
                 n += 1
-                ev = E.make(1, 1, E.T0 + n, [], "x%d" % n)
+                # regular and ephemeral kinds alternate: nothing is stored for an ephemeral event, it is only broadcast
+                ev = E.make(1, 1 if n % 3 else 20001, E.T0 + n, [], "x%d" % n)
                 if action == "save":
                     if path == "ws":
                         fr = [json.loads(x) for x in await c.send(["EVENT", ev])]
@@ -122,7 +123,7 @@ class Matrix(Sub):
                         ok, msg = await rig.add(ev, token=token)
                     after = await rig.dump()
                     if allowed:
-                        if not ok or ev["id"] not in after:
+                        if not ok or (ev["id"] not in after and ev["kind"] == 1):
                             viol.append(V("%s-allowed-save-refused" % backend, "a permitted identity can save",
                                           case=case, identity=ident, path=path, msg=msg))
                     else:
@@ -135,6 +136,9 @@ class Matrix(Sub):
                                           "a forbidden event is not stored", case=case, identity=ident, path=path))
                 else:
                     if path == "ws":
+                        # a REQ without a usable filter is answered EOSE before any role check and starts the
+                        # connection's sender task
+                        await c.send(["REQ", "warmup", {"kinds": "x"}])
                         fr = [json.loads(x) for x in await c.send(["REQ", "q", {"kinds": [1]}])]
                         got = [f for f in fr if f[0] == "EVENT"]
                         notices = [f[1] for f in fr if f[0] == "NOTICE"]
@@ -154,6 +158,12 @@ class Matrix(Sub):
                         if not any("restricted" in str(x) for x in notices):
                             viol.append(V("%s-forbidden-query-not-told:%s" % (backend, path),
                                           "a refused REQ is answered 'restricted'", case=case, identity=ident, notices=notices))
+                        from props.c13 import _client_id
+
+                        cid = _client_id(rig, c) if path == "ws" else None
+                        if cid is not None and "q" in rig.storage.clients.get(cid, {}):
+                            viol.append(V("%s-refused-subscription-registered" % backend,
+                                          "a refused REQ registers no subscription", case=case, identity=ident))
                         # nothing may be delivered later either
                         if path == "ws":
                             n0 = len(c.out)
